@@ -24,7 +24,8 @@ Match(e) ==
     CASE e.call = "set_global"    -> SetGlobal(e.arg[1], e.arg[2])
       [] e.call = "mutate_params" -> Mutate(e.arg[1], e.arg[2])
       [] e.call = "create"        -> Create(e.slot, e.arg[1], e.arg[2])
-      [] e.call = "weak_form"     -> WeakForm(e.slot)
+      [] e.call = "weak_form"     -> WeakForm(e.slot) \/ FmmWeakForm(e.slot)
+      [] e.call = "clear_fmm"     -> ClearFmm
       [] e.call = "strong_form"   -> StrongForm(e.slot)
       [] e.call = "mass_matrix"   -> MassMatrix
       [] e.call = "evaluate"      -> Evaluate(e.slot)
